@@ -2914,21 +2914,39 @@ func (dsc *dataStoreCommand) setMove(source, destination, memberName string) (ou
 		return
 	}
 
+	// the destination, when it exists, has to be a set whether or not the member moves
+	if dsk, destExists := dsc.getKeyObjectUnlocked(destination); destExists && dsk.getSet() == nil {
+		output.data = wrongTypeError
+		return
+	}
+
 	_, exists := ss.get(memberName)
 	if !exists {
 		output.data = respInt(0)
 		return
 	}
 
-	added, wrongType := dsc.setAddWorkerUnlocked(destination, []string{memberName}, SET_NOT_EXIST)
+	if source == destination {
+		// moving a member onto its own set changes nothing
+		output.data = respInt(1)
+		return
+	}
+
+	_, wrongType := dsc.setAddWorkerUnlocked(destination, []string{memberName}, SET_NOT_EXIST)
 	if wrongType {
 		output.data = wrongTypeError
 		return
 	}
 
 	ss.remove(memberName)
+	dsc.setDirty()
+	if ss.count == 0 {
+		// a set never exists empty
+		dsc.ds.data.remove(source)
+	}
 
-	output.data = respInt(added)
+	// the member left the source, whether or not the destination already had it
+	output.data = respInt(1)
 	return
 }
 
